@@ -516,3 +516,124 @@ func sortedKeys(m map[string]string) []string {
 	sort.Strings(ks)
 	return ks
 }
+
+// ---------------------------------------------------------------- histories generated by TLC (Typing.tla)
+
+type histOp struct {
+	Op string `json:"op"`
+	I  int    `json:"i"`
+	A  int    `json:"a"`
+}
+
+// histStates: every behaviour of Typing.tla is applied to the token sequence of every native document of the world;
+// abstract token indices are scaled to the real token count, alphabet indices pick from tokenAlphabet.
+func histStates(w *World, path string, ntok, radius int, rng *rand.Rand) []StateSpec {
+	f, err := os.Open(path)
+	if err != nil {
+		fatal("open histories: %v", err)
+	}
+	defer f.Close()
+	var hists [][]histOp
+	sc := bufio.NewScanner(f)
+	sc.Buffer(make([]byte, 1<<20), 1<<24)
+	for sc.Scan() {
+		var h struct {
+			Hist Seq[histOp] `json:"hist"`
+		}
+		if err := json.Unmarshal(sc.Bytes(), &h); err != nil {
+			fatal("bad history: %v", err)
+		}
+		hists = append(hists, h.Hist)
+	}
+	out := []StateSpec{}
+	for _, file := range sortedKeys(w.Docs) {
+		if strings.HasSuffix(file, ".json") {
+			continue
+		}
+		src := []byte(w.Docs[file])
+		toks := LexToks(src)
+		if len(toks) == 0 {
+			continue
+		}
+		base := tokenTexts(src)
+		for _, h := range hists {
+			shift := rng.Intn(len(tokenAlphabet))
+			for si := range h {
+				ns, at, ok := applyHist(base, h[:si+1], shift, ntok)
+				if !ok {
+					break
+				}
+				ops, _ := json.Marshal(h[:si+1])
+				out = append(out, StateSpec{World: w, File: file, Src: ns, Offsets: aroundOffsets(ns, at, radius),
+					Note: fmt.Sprintf("hist:%d:%s", shift, ops)})
+			}
+		}
+	}
+	return out
+}
+
+// applyHist applies the edits of one behaviour of Typing.tla to the token texts of a document; returns the buffer and
+// the byte offset of the last edit.
+func applyHist(base []string, h []histOp, shift, ntok int) ([]byte, int, bool) {
+	cur := append([]string{}, base...)
+	i := 0
+	for _, op := range h {
+		if len(cur) == 0 {
+			return nil, 0, false
+		}
+		// scale the abstract index to the current buffer
+		i = (op.I - 1) * len(cur) / ntok
+		if i >= len(cur) {
+			i = len(cur) - 1
+		}
+		alpha := tokenAlphabet[(op.A*4+shift)%len(tokenAlphabet)]
+		switch op.Op {
+		case "del":
+			cur = append(cur[:i:i], cur[i+1:]...)
+		case "ins":
+			cur = append(cur[:i:i], append([]string{alpha + " "}, cur[i:]...)...)
+		case "rep":
+			cur[i] = alpha + " "
+		case "cut":
+			cur = cur[:i+1]
+		case "dup":
+			cur = append(cur[:i:i], append([]string{cur[i]}, cur[i:]...)...)
+		}
+	}
+	at := 0
+	for k := 0; k < i && k < len(cur); k++ {
+		at += len(cur[k])
+	}
+	return []byte(strings.Join(cur, "")), at, true
+}
+
+func tokenTexts(src []byte) []string {
+	toks := LexToks(src)
+	base := make([]string, len(toks))
+	for i, t := range toks {
+		e := len(src)
+		if i+1 < len(toks) {
+			e = toks[i+1].S
+		}
+		base[i] = string(src[t.S:e])
+	}
+	return base
+}
+
+// histStateByNote rebuilds one state from its note (replay)
+func histStateByNote(w *World, file, note string, ntok int) *StateSpec {
+	parts := strings.SplitN(note, ":", 3)
+	if len(parts) != 3 || parts[0] != "hist" {
+		return nil
+	}
+	shift, _ := strconv.Atoi(parts[1])
+	var h []histOp
+	if json.Unmarshal([]byte(parts[2]), &h) != nil {
+		return nil
+	}
+	ns, _, ok := applyHist(tokenTexts([]byte(w.Docs[file])), h, shift, ntok)
+	if !ok {
+		return nil
+	}
+	return &StateSpec{World: w, File: file, Src: ns, Note: note}
+}
